@@ -117,6 +117,7 @@ func (w *World) probe(a app.App, ctx app.IOContext) error {
 		Spawn string `command:"?spawn"`
 		Sched string `command:"?gosched"`
 		Read  string `command:"?readline"`
+		Stop  string `command:"?stop"`
 	}
 	if err := ctx.Scope().InjectTo(&deps); err != nil {
 		return err
@@ -160,6 +161,9 @@ func (w *World) probe(a app.App, ctx app.IOContext) error {
 			vsched.Yield()
 		}
 	}
+	if deps.Stop != "" {
+		ctx.Scope().Stop() // graceful: the scope is done, it holds no error, the command goes on
+	}
 	n := 0
 	fmt.Sscanf(deps.Yield, "%d", &n)
 	for i := 0; i < n; i++ {
@@ -198,6 +202,9 @@ func (w *World) probe(a app.App, ctx app.IOContext) error {
 		// the command stops its scope gracefully and THEN reports a failure
 		ctx.Scope().Stop()
 		return ErrProbe
+	case "kill":
+		// the command kills its scope and reports nothing else: the scope has failed all the same
+		ctx.Scope().Kill()
 	case "return":
 		return ErrProbe
 	case "append":
@@ -209,10 +216,44 @@ func (w *World) probe(a app.App, ctx app.IOContext) error {
 type retSandboxes struct{ w *World }
 
 func (b *retSandboxes) Is(name string) bool {
-	return strings.HasPrefix(name, "retfail:") || strings.HasPrefix(name, "retok:")
+	return strings.HasPrefix(name, "retfail:") || strings.HasPrefix(name, "retok:") || strings.HasPrefix(name, "async:")
+}
+
+// asyncSandbox ("async:<id>:<resource>"): Run registers a piece of work on the task's scope, starts it in
+// a goroutine and returns at once; the work enters the named resource as a writer. The runner waits
+// for the task scope before the task counts as finished - and must keep the task's locks until then.
+type asyncSandbox struct {
+	w        *World
+	id, res  string
+}
+
+func (s *asyncSandbox) Run(ctx app.IOContext) error {
+	if err := ctx.Scope().AddTasks(1); err != nil {
+		return err
+	}
+	w := s.w
+	vsched.Go(func() {
+		defer ctx.Scope().DoneTask()
+		w.Events = append(w.Events, Event{w.tick(), "begin", s.id, ""})
+		if w.insideW[s.res]+w.insideR[s.res] > 0 && w.ExclViolation == "" {
+			w.ExclViolation = fmt.Sprintf("%s entered resource %q as a writer while %d writer(s) and %d reader(s) were inside", s.id, s.res, w.insideW[s.res], w.insideR[s.res])
+		}
+		w.insideW[s.res]++
+		vsched.Point("sandbox-yield")
+		w.insideW[s.res]--
+		w.Events = append(w.Events, Event{w.tick(), "end", s.id, ""})
+	})
+	return nil
 }
 
 func (b *retSandboxes) Build(name string) (pipservices.Sandbox, error) {
+	if strings.HasPrefix(name, "async:") {
+		parts := strings.SplitN(name, ":", 3)
+		if len(parts) != 3 {
+			return nil, fmt.Errorf("async sandbox name must be async:<id>:<resource>")
+		}
+		return &asyncSandbox{b.w, parts[1], parts[2]}, nil
+	}
 	return &retSandbox{b.w, strings.HasPrefix(name, "retfail:"), name[strings.Index(name, ":")+1:]}, nil
 }
 
